@@ -52,6 +52,13 @@ type FaultPlan struct {
 	SitePrefix string
 	SiteLeft   int
 
+	// CancelArmed / CancelAt / Cancel: the caller gives up at seam call CancelAt — Cancel (the
+	// cancel function of the command's context, set by whoever builds that context) is called, and
+	// the seam call itself goes ahead: a back end that does not look at the context never notices.
+	CancelArmed bool
+	CancelAt    int
+	Cancel      func()
+
 	Active bool // faults only fire while an operation under test is in flight
 	N      int  // decorated calls seen while active
 	Fired  int
@@ -71,6 +78,11 @@ func (p *FaultPlan) Next(site string, mutating bool) Outcome {
 	idx := p.N
 	p.N++
 	p.Sites = append(p.Sites, site)
+	if p.CancelArmed && idx == p.CancelAt && p.Cancel != nil {
+		p.CancelArmed = false
+		p.Cancel()
+		p.R.Fault("caller-cancels", "before call#%d %s", idx, site)
+	}
 	out := OK
 	switch p.Mode {
 	case 1:
